@@ -57,10 +57,10 @@ func allSpecs() map[string]*PropSpec {
 	})
 	add(&PropSpec{
 		ID:          "C14",
-		Explanation: "C-ORDER: may-lockset dataflow over SSA (interprocedural, through closures via the VTA call graph): no mutex is acquired while it may already be held (incl. nested read locks), and the held->acquired graph is acyclic. C-BLOCK: client methods whose implementation awaits a response are never reachable from a handler without a go statement and never called with a lock held; notifications are sent with at most the publication lock held. C-LOCKSET: every field of the long-lived shared structs that is written outside the initialisation phase and accessed from a server-started goroutine has a common lock over all its accesses (must-lockset). C-LEAK: getters that hand out a guarded map/pointer field are listed; in-place mutation of a handed-out object and writes through a handed-out reference are reported. C-RMW: a value stored into lock-protected shared state (field, map element, sync.Map entry) never derives - through callees' results or callers' arguments - from a read of the same field made in a different critical section when some writer of the field runs on a server-started goroutine (no lost update). C-ROOTS.",
+		Explanation: "C-ORDER: may-lockset dataflow over SSA (interprocedural, through closures via the VTA call graph): no mutex is acquired while it may already be held (incl. nested read locks), and the held->acquired graph is acyclic. C-BLOCK: client methods whose implementation awaits a response are never reachable from a handler without a go statement and never called with a lock held; notifications are sent with at most the publication lock held. C-LOCKSET: every field of the long-lived shared structs that is written outside the initialisation phase and accessed from a server-started goroutine has a common lock over all its accesses (must-lockset). C-LEAK: getters that hand out a guarded map/pointer field are listed; in-place mutation of a handed-out object and writes through a handed-out reference are reported. C-RMW: a value stored into lock-protected shared state (field, map element, sync.Map entry) never derives - through callees' results or callers' arguments - from a read of the same field made in a different critical section when some writer of the field runs on a server-started goroutine (no lost update). C14-ORDER: no function that writes the workspace's resolved include tree is reachable from a goroutine the server starts (the workspace follows the notifications synchronously and in order). C-ROOTS.",
 		NotDecided:  "races inside third-party libraries; aliasing beyond the field-based abstraction; that each response equals the state at handling time as a value.",
 		Assumptions: []string{"Initialize is handled before any other message (LSP lifecycle)", "handlers are dispatched serially by jsonrpc2 (re-checked by C-ROOTS)"},
-		Rules:       []func(*Ctx){ruleConcRoots, ruleLockOrder, ruleBlock, ruleLockset, ruleLeak, ruleRMW},
+		Rules:       []func(*Ctx){ruleConcRoots, ruleLockOrder, ruleBlock, ruleLockset, ruleLeak, ruleRMW, ruleSyncUpdate},
 	})
 	add(&PropSpec{
 		ID:          "C19",
